@@ -29,6 +29,8 @@ const (
 	cstFor      = "For"
 	cstLoop     = "Loop"
 	cstWhile    = "While"
+
+	cstBreakable = "Breakable"
 )
 
 const (
